@@ -157,3 +157,95 @@ def unit(prefixes, clause):
         return out
     return Unit('hello/TlsHandshakeClientHello[%s]' % clause, r, search=native_search, replay=lambda inputs: native_search(0),
                 clause=clause, functions=['TlsHandshakeClientHello.compose', 'TlsHandshakeClientHello._parse'])
+
+
+# ---------------------------------------------------------------------------------------------- decoder direction
+WIRE_SUITES = 2
+
+
+def decode_thunk():
+    """a specification-conformant ClientHello whose cipher_suites vector holds ARBITRARY codes (the signalling values
+    0x5600 / 0x00ff anywhere in it, RFC 5746 3.3: "may appear anywhere") is parsed by the real parser: the flags must say
+    exactly whether the markers are on the wire and the remaining suites must keep their order"""
+    from cryptoparser.tls.subprotocol import TlsHandshakeClientHello, TlsHandshakeHelloRandom, TlsHandshakeHelloRandomBytes
+    from cryptoparser.tls.ciphersuite import TlsCipherSuiteFactory
+    from cryptoparser.tls.grease import TlsInvalidTypeTwoByte
+    from contracts.common_base import coded_spec
+    from spec import tls as ST, wire as W
+    P = E.cur()
+    P.top_class = TlsHandshakeClientHello
+    sp = coded_spec(TlsCipherSuiteFactory.get_enum_class(), TlsInvalidTypeTwoByte, 2)
+    codes = []
+    for i in range(WIRE_SUITES):
+        if not P.choose('wire has cipher suite %d' % i):
+            break
+        c = z3.Int('wire_suite_%d' % i)
+        P.assume(z3.And(c >= 0, c < 65536))
+        codes.append(c)
+    P.inputs['wire_suite_codes'] = [V.SInt(c) for c in codes]
+    secs = z3.Int('gmt_unix_time')
+    P.assume(z3.And(secs >= 0, secs < 2 ** 32))
+    rnd = I.construct(TlsHandshakeHelloRandom, [], dict(time=V.SDateTime(secs, z3.IntVal(0), aware=False),
+                                                        random=TlsHandshakeHelloRandomBytes(bytearray(range(28)))))
+    # which codes are markers: a case split of the specification
+    kept, fb, er = [], False, False
+    for c in codes:
+        if P.branch(c == ST.FALLBACK_SCSV):
+            fb = True
+        elif P.branch(c == ST.EMPTY_RENEGOTIATION_INFO_SCSV):
+            er = True
+        else:
+            kept.append(c)
+    if not kept:
+        raise E.PathEnd()           # a hello without any real cipher suite is outside the constructor's domain (vector minimum)
+    want = I.construct(TlsHandshakeClientHello, [], dict(cipher_suites=[I.materialize(SCoded(sp, c)) for c in kept], random=rnd,
+                                                         fallback_scsv=fb, empty_renegotiation_info_scsv=er))
+    wire = ST.handshake(1, ST.client_hello_body(W.lift_deep(want), V.seq_of_terms(codes, 'list'), False, False))
+    P.inputs['wire'] = wire
+    res = vc.outcome_of(lambda: I.call(TlsHandshakeClientHello.parse_immutable, [wire.copy('bytes')], {}))
+    if res.kind != 'ret':
+        # the only conformant encodings the parser may refuse are those its vector bounds exclude (an empty suite list)
+        e1.record_path_fact(P, 'K6-decode TlsHandshakeClientHello: a conformant encoding with %d suites is accepted (got %s)'
+                            % (len(codes), res.value.cls.__name__), len(codes) == 0)
+        return
+    o2, n = res.value
+    P.oblige('K6-decode TlsHandshakeClientHello: the whole encoding is consumed', ops.as_int(n) == wire.n)
+    vc.oblige_equal(P, 'K6-decode TlsHandshakeClientHello: flags say which signalling suites are on the wire, the other suites keep their order',
+                    o2, want)
+
+
+def decode_native(seed, hints=()):
+    import datetime
+    from cryptoparser.tls.subprotocol import TlsHandshakeClientHello, TlsHandshakeHelloRandom, TlsHandshakeHelloRandomBytes
+    from cryptodatahub.tls.algorithm import TlsCipherSuite
+    base = TlsHandshakeClientHello([list(TlsCipherSuite)[0]], fallback_scsv=False, empty_renegotiation_info_scsv=False,
+                                   random=TlsHandshakeHelloRandom(datetime.datetime(2021, 3, 4, 5, 6, 7),
+                                                                  TlsHandshakeHelloRandomBytes(bytearray(range(28)))))
+    for codes in ([0x00ff, 0x002f], [0x5600, 0xc02f], [0x002f, 0x00ff, 0xc02f], [0x5600, 0x00ff, 0x1301], [0x002f, 0x5600],
+                  [0x1301, 0x00ff, 0x5600]):
+        body = b''.join(c.to_bytes(2, 'big') for c in codes)
+        payload = b'\x03\x03' + bytes(base.random.compose()) + b'\x00' + len(body).to_bytes(2, 'big') + body + b'\x01\x00'
+        wire = b'\x01' + len(payload).to_bytes(3, 'big') + payload
+        call = 'TlsHandshakeClientHello.parse_exact_size(bytes.fromhex(%r))' % wire.hex()
+        try:
+            o = TlsHandshakeClientHello.parse_exact_size(wire)
+        except Exception as ex:
+            return dict(reproduced=True, call=call, expected='accepted', observed=repr(ex)[:120], key='scsv position')
+        got = [s.value.code for s in o.cipher_suites]
+        want = [c for c in codes if c not in (0x5600, 0x00ff)]
+        if got != want or o.fallback_scsv != (0x5600 in codes) or o.empty_renegotiation_info_scsv != (0x00ff in codes):
+            return dict(reproduced=True, call=call, expected='suites %r fallback=%s renegotiation=%s' % (want, 0x5600 in codes, 0x00ff in codes),
+                        observed='suites %r fallback=%s renegotiation=%s' % (got, o.fallback_scsv, o.empty_renegotiation_info_scsv),
+                        key='scsv position')
+    return dict(reproduced=False)
+
+
+def decode_unit():
+    def r():
+        e2.setup()
+        res = vc.run_unit('hello-decode', decode_thunk, max_paths=4000)
+        res.extra['bounded'] = sorted(set(res.extra.get('bounded', [])) | {
+            'ClientHello decoder direction: at most %d cipher suite codes on the wire (each symbolic over 2^16, markers anywhere), default version/session id/compression, no extensions' % WIRE_SUITES})
+        return res
+    return Unit('hello/TlsHandshakeClientHello[K6 decoder, SCSV anywhere]', r, search=decode_native, replay=lambda inputs: decode_native(0),
+                clause='K6 decoder', functions=['TlsHandshakeClientHello._parse', 'spec.client_hello_body'])
